@@ -299,7 +299,13 @@ Proof.
     + destruct (write3_empty x (hset (chdr x) K_CT V_HTML) code F) as (y & E & A); try assumption.
       { hsimp. exact Fce. }
       rewrite E. exists y. split; [reflexivity | exact A].
-    + apply (write3 x _ code (b0 :: content)); try assumption. hsimp. exact Fce.
+    + assert (Fcm : cm x = None) by (destruct F as (F1 & _); exact F1).
+      rewrite Fcm.
+      destruct (write3 x (hset (chdr x) K_CT V_HTML) code (b0 :: content) F) as (y & E & A); try assumption.
+      { hsimp. exact Fce. }
+      exists y. split; [|exact A].
+      unfold bnd in E |- *. destruct (h_wh code (set_chdr x (hset (chdr x) K_CT V_HTML))) as [y0|y0]; [|discriminate E].
+      rewrite E. reflexivity.
   - apply write3; try assumption. hsimp. exact Fce.
   - apply write3; try assumption. hsimp. exact Fce.
 Qed.
